@@ -198,12 +198,18 @@ func main() {
 	}
 	wg.Wait()
 	pr.Outcomes = len(outcomes)
-	// Reproducibility gate: a failing case must fail the same way on five re-runs.
+	// Reproducibility gate: a failing case must fail the same way on five re-runs. Exempt are
+	// findings that are conclusive from a single observation whatever the runtime did: a value
+	// the harness holds a private deep copy of has changed (memory shared with a reused
+	// buffer). Whether the reuse happens depends on sync.Pool and the garbage collector, so such
+	// a failure need not repeat, but nothing in a correct run can produce it even once.
 	sort.Slice(fails, func(i, j int) bool { return fails[i].c.ID < fails[j].c.ID })
 	seenSig := map[string]int{}
 	for _, f := range fails {
 		stable := true
-		if len(pr.Violations) < 40 {
+		if conclusiveOnce(f.r.Findings) {
+			// reported as observed
+		} else if len(pr.Violations) < 40 {
 			for k := 0; k < 5 && stable; k++ {
 				r2 := runCase(f.c)
 				if !sameSigs(r2.Findings, f.r.Findings) {
@@ -255,6 +261,18 @@ func trunc(s string, n int) string {
 		return s[:n] + "…"
 	}
 	return s
+}
+
+// conclusiveOnce: every finding of the case is of a kind that one observation settles.
+func conclusiveOnce(fs []Finding) bool {
+	for _, f := range fs {
+		switch f.Sig {
+		case "c03-retained-row-changed", "c03-rows-share-state", "c03-shared-state", "c17-helper-result-not-stable":
+		default:
+			return false
+		}
+	}
+	return len(fs) > 0
 }
 
 func sameSigs(a, b []Finding) bool {
